@@ -17,7 +17,10 @@ Inductive case :=
    distinct: the returned paths are pairwise distinct as strings (hash set over all of them);
    samples: (name part, count, file name) as byte lists, a few per run *)
 | CRun (threads calls start pid : N) (runs : list (N * N)) (in_tmp has_part distinct : bool)
-       (samples : list (list N * N * list N)).
+       (samples : list (list N * N * list N))
+(* the same with [others] further calls made meanwhile by the other public function that draws temporary names
+   (serialize::test with remove = true, from [tthreads] more threads); their names are not observed *)
+| CMixed (threads calls start pid : N) (tthreads others : N) (runs : list (N * N)) (in_tmp has_part distinct : bool).
 
 Definition rangeN (s l : N) : list N :=
   rev (snd (N.iter l (fun xa : N * list N => (fst xa + 1, fst xa :: snd xa)) (s, []))).
@@ -87,5 +90,14 @@ Definition check (c : case) : N :=
       let s_ok :=
         strict_inc obs && (lenN' obs =? total) && in_tmp && has_part && distinct &&
         forallb (sample_spec_ok obs) samples in
+      code m_ok s_ok
+  | CMixed threads calls start pid tthreads others runs in_tmp has_part distinct =>
+      let obs := expand runs in
+      let total := threads * calls in
+      (* model: every call of either function performs the generated atomic program once on the one counter, so
+         the observed counts are distinct values of [start, start + total + others) (any interleaving: C20_unique) *)
+      let m_ok := strict_inc obs && (lenN' obs =? total)
+                  && forallb (fun c => (start <=? c) && (c <? start + total + others)) obs in
+      let s_ok := strict_inc obs && (lenN' obs =? total) && in_tmp && has_part && distinct in
       code m_ok s_ok
   end.
